@@ -40,7 +40,7 @@ ASSUMPTIONS = ['stop --now --now (pool terminate) is not a C19 mode',
                'differential oracle compares order-independent facts only']
 MIN = {'restarts': 60, 'snapshot_tasks_compared': 200,
        'differential_compared': 40}
-NCASES = {'quick': 60, 'thorough': 500}
+NCASES = {'quick': 200, 'thorough': 2400}
 MONS = ['c26', 'rsnap']
 
 
@@ -76,7 +76,7 @@ def prelude(rng, case):
     return sc
 
 
-def compare_snapshots(ctx, A, B, detail, S=None):
+def compare_snapshots(ctx, A, B, detail, S=None, auto_shutdown=False):
     """A: end of stopped incarnation; B: right after restart start-up."""
     pa = {t['id']: t for t in A['pool']}
     pb = {t['id']: t for t in B['pool']}
@@ -161,7 +161,11 @@ def compare_snapshots(ctx, A, B, detail, S=None):
                           'restart', dict(detail, before=ea, after=eb))
         elif ea[fld]:
             ctx.count(f'extras_nonempty:{fld}')
-    if ea['pool_stop_point'] != eb['pool_stop_point']:
+    if auto_shutdown and ea['pool_stop_point'] != eb['pool_stop_point']:
+        # shut down by itself having reached the stop point: the stop point
+        # is forgotten on purpose (C43)
+        ctx.count('stop_point_forgotten_after_automatic_shutdown')
+    elif ea['pool_stop_point'] != eb['pool_stop_point']:
         ctx.violation('C19:stop_point-not-restored',
                       f'stop point {ea["pool_stop_point"]!r} at stop, '
                       f'{eb["pool_stop_point"]!r} after restart',
@@ -237,7 +241,9 @@ def run_case(ctx, i, rng):
             st = ((b.get('monitors') or {}).get('rsnap') or {}).get(
                 'settled')
             compare_snapshots(ctx, sa, sb, detail, {
-                t['id']: t for t in st['pool']} if st else None)
+                t['id']: t for t in st['pool']} if st else None,
+                auto_shutdown=(a.get('stop_reason') or '').endswith(
+                    'AUTOMATIC'))
         ctx.evaluated((i, k, mode, nrestarts), nontrivial=nontrivial)
         if any(r.get('capped') for r in results):
             ctx.count('capped_runs')
